@@ -41,7 +41,9 @@ PROPS = {
     "C01": dict(
         gens=[tlc("c01"), rand("stream_any", 600, "quick"), rand("stream_unsorted", 400, "quick"),
               rand("stream_any", 30000, "thorough"), rand("stream_unsorted", 20000, "thorough")],
-        tv_props=["C01"],
+        tv_props=["C01", "DRIFT"],
+        mc=[dict(module="MC_LeafM.tla", cfg="MC_LeafM", tier="quick"),
+            dict(module="MC_LeafM.tla", cfg="MC_LeafM_deep", tier="thorough", timeout=1800)],
         must_fire=["C01.reassemble", "C01.chunks_have_text"],
         rule="TLC-enumerated small trees (Gen.tla scope c01) plus seeded random trees (multi-byte text, wild maps, "
              "overlapping/out-of-range replacements, maps whose columns go backwards, cached replay through a clone); non-trivial = the tree has a "
